@@ -16,6 +16,7 @@ import (
 	"github.com/robertkrimen/otto/ast"
 	"github.com/robertkrimen/otto/file"
 	"github.com/robertkrimen/otto/parser"
+	"github.com/robertkrimen/otto/registry"
 	"pgregory.net/rapid"
 )
 
@@ -455,10 +456,31 @@ func makeRuntime(c *MultiCase, tk *MTask, id int, tpl *otto.Otto) *otto.Otto {
 		vm = tpl.Copy()
 	case "copycopy":
 		vm = tpl.Copy().Copy()
+	case "livefresh":
+		return nil // created by the task itself, while the others are mid-program
 	default:
 		fatalf("unknown origin %q", tk.Origin)
 	}
 	setRandom(vm, c.Seed+uint64(id)*977)
+	if tk.Chan {
+		vm.Interrupt = make(chan func(), 1)
+	}
+	return vm
+}
+
+// makeRuntimeLive is makeRuntime("fresh") for use inside a running task: the
+// prelude's host calls are journaled into the task itself.
+func makeRuntimeLive(c *MultiCase, tk *MTask, t *mtask) *otto.Otto {
+	vm := otto.New()
+	vm.SetStackDepthLimit(48)
+	installMulti(vm)
+	if _, err := vm.Run(preludeJS + multiPreludeJS); err != nil {
+		t.rec("PRELUDE-ERR " + err.Error())
+	}
+	if err := vm.Set("gs", &bridged{Name: "g", Count: t.id, Tags: []string{"x", "y"}, M: map[string]int{"k": t.id}}); err != nil {
+		t.rec("SET-ERR " + err.Error())
+	}
+	setRandom(vm, c.Seed+uint64(t.id)*977)
 	if tk.Chan {
 		vm.Interrupt = make(chan func(), 1)
 	}
@@ -519,6 +541,14 @@ func runProg(t *mtask, p *MProg, shared []sharedSrc, stepsActive bool) {
 }
 
 func runTask(c *MultiCase, tk *MTask, t *mtask, tpl *otto.Otto, shared []sharedSrc, interleaved bool) {
+	if tk.Origin == "livefresh" {
+		// otto.New() (which applies the package-level registry) and the prelude
+		// run while other runtimes are mid-program
+		fresh := *tk
+		fresh.Origin = "fresh"
+		t.vm = makeRuntimeLive(c, &fresh, t)
+		t.rec("LIVEFRESH")
+	}
 	for i := range tk.Progs {
 		if tk.LiveCopy == i+1 {
 			// copy_live: a new copy of the (idle) template taken while other
@@ -649,6 +679,8 @@ func (multiEngine) Name() string     { return "multisim" }
 func (multiEngine) Property() string { return "C20" }
 func (multiEngine) Init() {
 	otto.VerifStep = msHook
+	// an embedder-registered source that every otto.New() applies
+	registry.Register(func() string { return "var __registered = (typeof __registered === 'number' ? __registered : 0) + 1;" })
 	initBuiltinSurface()
 	if os.Getenv("VERIF_WARM") == "1" {
 		warmUp()
@@ -812,6 +844,8 @@ func execMulti(c *MultiCase, st *Stats) *Violation {
 				st.Fault("program_aborted")
 			} else if l == "LIVECOPY" {
 				st.Fault("copy_live")
+			} else if l == "LIVEFRESH" {
+				st.Fault("new_runtime_live")
 			}
 		}
 	}
@@ -1028,9 +1062,9 @@ func (multiEngine) Gen(t *rapid.T, tier string) interface{} {
 		c.Scripts = append(c.Scripts, genMultiProg(t, 0).Src)
 	}
 	nt := rapid.IntRange(2, 5).Draw(t, "ntasks")
-	origins := []string{"copy", "fresh", "copycopy"}
+	origins := []string{"copy", "fresh", "copycopy", "livefresh"}
 	for i := 0; i < nt; i++ {
-		tk := MTask{Origin: origins[rapid.IntRange(0, 2).Draw(t, "origin")]}
+		tk := MTask{Origin: origins[rapid.IntRange(0, 3).Draw(t, "origin")]}
 		np := rapid.IntRange(1, 3).Draw(t, "nprogs")
 		for j := 0; j < np; j++ {
 			switch rapid.IntRange(0, 5).Draw(t, "route") {
@@ -1058,7 +1092,7 @@ func (multiEngine) Gen(t *rapid.T, tier string) interface{} {
 				}
 			}
 		}
-		if tk.Origin != "fresh" && rapid.IntRange(0, 3).Draw(t, "livecopy") == 3 {
+		if tk.Origin != "fresh" && tk.Origin != "livefresh" && rapid.IntRange(0, 3).Draw(t, "livecopy") == 3 {
 			tk.LiveCopy = rapid.IntRange(1, np).Draw(t, "livecopyat")
 		}
 		c.Tasks = append(c.Tasks, tk)
